@@ -197,6 +197,12 @@ def parallel_scenarios(ck, scs):
                 res.append(('ag', n, {i: dict(ag_points[k % len(ag_points)], how=list(how))}, nj))
                 res.append(('dpseg', n, {i: dict(dp_points[k % len(dp_points)], how=list(how))}, nj))
                 k += 1
+    # a negative job count (joblib: -1 = as many jobs as CPUs): the same reporting and the same clean-up as any other count
+    res.append(('ag', 2, {}, -1))
+    res.append(('dpseg', 2, {}, -1))
+    res.append(('ag', 2, {1: dict(ag_points[0], how=list(HOWS[0]))}, -1))
+    res.append(('dpseg', 2, {0: dict(dp_points[1], how=list(HOWS[0]))}, -1))
+    res.append(('dpseg', 3, {2: dict(dp_points[2], how=list(HOWS[3]))}, -2))
     res += slow_sibling_scenarios()
     # every ag scenario first: once joblib's process pool exists its threads stay in this process
     res.sort(key=lambda r: r[0] != 'ag')
